@@ -1054,6 +1054,11 @@ impl Broker {
 
         self.channels.insert(cookie, channel);
 
+        #[cfg(feature = "statistics")]
+        {
+            self.statistics.num_channels = self.statistics.num_channels.saturating_add(1);
+        }
+
         send!(
             self,
             conn,
@@ -1061,14 +1066,7 @@ impl Broker {
                 serial: req.serial,
                 cookie,
             },
-        )?;
-
-        #[cfg(feature = "statistics")]
-        {
-            self.statistics.num_channels = self.statistics.num_channels.saturating_add(1);
-        }
-
-        Ok(())
+        )
     }
 
     fn close_channel_end(
